@@ -29,6 +29,10 @@ SHAPES = [
     ("NOT ({A} AND {B})", ''),
     ("({A} AND {B}) OR {C}", ''),
     ("{A} AND ({B} AND {C})", 'ABC'),
+    # the same conjunct written twice
+    ("{A} AND {B} AND {A}", 'AB'),
+    ("{A} AND ({B} AND {A})", 'AB'),
+    ("{A} AND {A}", 'A'),
 ]
 NA, NS = len(ATOMS), len(SHAPES)
 
@@ -57,7 +61,7 @@ def build(shape, a, b, c, on_clause, using, model_first, frame=0):
         frm = 'mindsdb.pred AS m JOIN int1.tbl1 AS t' + on
     else:
         frm = 'int1.tbl1 AS t JOIN mindsdb.pred AS m' + on
-    us = ' USING Opt1=7, m.opt2=\'q\'' if using else ''
+    us = ' USING Opt1=7, M.opt2=\'q\'' if using else ''
     sql = 'SELECT t.a, m.p FROM %s WHERE %s%s' % (frm, where, us)
     top_atoms = [slots[k] for k in used if k in top]
     all_atoms = [slots[k] for k in used]
